@@ -87,6 +87,13 @@ let gens_hint o = match o.gens with Some g -> g | None -> raise (Skip "no valida
 
 let single c = sys_of_cons [c]
 
+(* topological closure: the relaxed system when the set is non-empty (theorems C02_topological_closure_contains and _least), empty otherwise *)
+let closure_of (o : obj) : sys =
+  match nonempty_sys (dimn o) o.s with
+  | Some true -> relax o.s
+  | Some false -> false_sys
+  | None -> raise (Skip "undecided emptiness")
+
 let ref_new c =
   let id = nexti c in let topo = next c in let dim = nexti c in let how = next c in
   let s = match how with
@@ -94,7 +101,7 @@ let ref_new c =
     | "empty" -> false_sys
     | "cons" -> sys_of_cons (read_cons c dim)
     | "gens" -> sys_of_gens dim (read_gens c dim)
-    | "from" -> let y = get (nexti c) in if topo = "C" && y.topo = "NNC" then relax y.s else y.s
+    | "from" -> let y = get (nexti c) in if topo = "C" && y.topo = "NNC" then closure_of y else y.s
     | _ -> raise (Skip ("new " ^ how)) in
   id, { topo; dim; s; gens = None }
 
@@ -170,7 +177,7 @@ and ref_op_raw c : int * obj * (unit -> bool option) option =
         else s) x.s cgs in
       id, upd s', none
   | "concatenate_assign" -> let y = get (nexti c) in id, { x with s = concatenate (nat n) x.s y.s; dim = n + y.dim; gens = None }, none
-  | "topological_closure_assign" -> id, upd (relax x.s), none
+  | "topological_closure_assign" -> id, upd (closure_of x), none
   | "affine_image" | "affine_preimage" ->
       let v = nexti c in let d = nextz c in let e = read_expr_n c in check_den d;
       if v >= n || List.length e.lcoefs > n then raise (Skip "dimension-incompatible");
